@@ -32,6 +32,35 @@ type genState struct {
 	usedP  map[int32]bool
 	colls  map[string]bool
 	cmpOf  map[string]int
+	shadow map[string]map[string]int32 // approximate contents: name -> key -> priority
+}
+
+func (g *genState) track(o Op) {
+	switch o.K {
+	case "set":
+		if itemValid(o.Key, o.Val, o.Prio) {
+			if g.shadow[o.Name] == nil {
+				g.shadow[o.Name] = map[string]int32{}
+			}
+			g.shadow[o.Name][string(o.Key)] = o.Prio
+		}
+	case "del":
+		delete(g.shadow[o.Name], string(o.Key))
+	case "rmcoll":
+		delete(g.shadow, o.Name)
+	}
+}
+
+// rootKey guesses the key at the root of the treap (highest priority).
+func (g *genState) rootKey(name string) []byte {
+	var best []byte
+	bp := int32(-1)
+	for k, p := range g.shadow[name] {
+		if p > bp || (p == bp && k > string(best)) {
+			bp, best = p, []byte(k)
+		}
+	}
+	return best
 }
 
 var collNamePool = []string{"a", "b", "c0", "x y", "q\"uote", "back\\slash", "<tag>&", "Zed", "", "name-with-long-text-0123456789"}
@@ -171,7 +200,8 @@ func (g *genState) liveName() string {
 
 // GenHistory produces one history for the writable store (H=0).
 func GenHistory(r *Rng, cfg GenCfg) []Op {
-	g := &genState{r: r, cfg: cfg, usedP: map[int32]bool{}, colls: map[string]bool{}, cmpOf: map[string]int{}}
+	g := &genState{r: r, cfg: cfg, usedP: map[int32]bool{}, colls: map[string]bool{}, cmpOf: map[string]int{}, shadow: map[string]map[string]int32{}}
+	tracked := 0
 	perm := make([]int, len(collNamePool))
 	for i := range perm {
 		perm[i] = i
@@ -199,6 +229,9 @@ func GenHistory(r *Rng, cfg GenCfg) []Op {
 	}
 	g.keys = genKeyPool(r, fold, cfg.NKeys)
 	for len(ops) < cfg.NOps {
+		for ; tracked < len(ops); tracked++ {
+			g.track(ops[tracked])
+		}
 		n := g.liveName()
 		x := r.Intn(100)
 		switch {
@@ -233,7 +266,29 @@ func GenHistory(r *Rng, cfg GenCfg) []Op {
 			ops = append(ops, Op{K: "tot", Name: n})
 		case x < 80:
 			if cfg.Structural {
-				switch r.Intn(4) {
+				switch r.Intn(5) {
+				case 4:
+					// the smallest possible change between two flushes: nothing, one delete of the
+					// treap's root or of some key, one overwrite with the same or another value
+					ops = append(ops, Op{K: "flush"})
+					switch r.Intn(5) {
+					case 0:
+						if k := g.rootKey(n); k != nil {
+							ops = append(ops, Op{K: "del", Name: n, Key: k})
+						}
+					case 1:
+						ops = append(ops, Op{K: "del", Name: n, Key: g.key()})
+					case 2:
+						ops = append(ops, Op{K: "set", Name: n, Key: g.key(), Val: genVal(r, false), Prio: g.prio()})
+					case 3:
+						if k := g.rootKey(n); k != nil {
+							ops = append(ops, Op{K: "set", Name: n, Key: k, Val: genVal(r, false), Prio: g.shadow[n][string(k)]})
+						}
+					}
+					ops = append(ops, Op{K: "flush"})
+					if cfg.FileBacked && r.Chance(1, 3) {
+						ops = append(ops, Op{K: "reopen"})
+					}
 				case 0, 1:
 					ops = append(ops, Op{K: "flush"})
 				case 2:
@@ -246,7 +301,7 @@ func GenHistory(r *Rng, cfg GenCfg) []Op {
 			}
 		case x < 88:
 			if cfg.Visits {
-				k := []string{"asc", "desc", "ascx", "descx", "itasc", "itdesc"}[r.Intn(6)]
+				k := []string{"asc", "desc", "ascx", "descx", "itasc", "itdesc", "nasc", "ndesc", "nit"}[r.Intn(9)]
 				stop := -1
 				if r.Chance(1, 2) {
 					stop = r.Intn(5)
